@@ -84,3 +84,19 @@ package layout
 //@     invariant same(line.Fragments, fragments)
 //@   loop 4:
 //@     invariant linesum(lines, len(lines)) == entry(linesum(lines, len(lines))) && len(lines) == entry(len(lines))
+
+// ---- C09: column assignment: the column intervals [left_i, right_i) are half-open, so a fragment whose centre lies in
+// one of them is put into exactly one column (the first such), and a fragment covered by none is put into none ----
+//@ spec rec prefix func colsum(cols []Column, n int) int = n <= 0 ? 0 : colsum(cols, n - 1) + wsum(cols[n-1].Fragments, len(cols[n-1].Fragments))
+//@ func (*ColumnDetector) createColumnsFromGaps results (res)
+//@   property C09
+//@   flags nosafety, readonly
+//@   loop 2:
+//@     invariant len(columns) == len(boundaries)
+//@   loop 3:
+//@     invariant len(columns) == len(boundaries)
+//@     step covered_fragment_assigned_once: (exists k int :: 0 <= k && k < len(columns) && boundaries[k].left <= f.X + f.Width / 2.0 && f.X + f.Width / 2.0 < boundaries[k].right) ==> colsum(columns, len(columns)) == prev(colsum(columns, len(columns))) + weight(f)
+//@     step uncovered_fragment_not_invented: !(exists k int :: 0 <= k && k < len(columns) && boundaries[k].left <= f.X + f.Width / 2.0 && f.X + f.Width / 2.0 < boundaries[k].right) ==> colsum(columns, len(columns)) == prev(colsum(columns, len(columns)))
+//@   loop 4:
+//@     invariant len(columns) == len(boundaries) && len(columns) == entry(len(columns)) && colsum(columns, len(columns)) == entry(colsum(columns, len(columns)))
+//@     invariant forall k int :: {boundaries[k]} 0 <= k && k < $i ==> !(boundaries[k].left <= fragCenter && fragCenter < boundaries[k].right)
